@@ -1,0 +1,50 @@
+//go:build verif
+
+// Contracts for disk.go, checked by /verif (govc). Comment-only file.
+//
+// Ghost vocabulary (per invocation unless stated):
+//   locked      this goroutine holds diskCache.mu              (extern_contracts_verif.go)
+//   held        bytes reserved in the index by this invocation (events of Reserve/Unreserve)
+//   hitN, hitSize   number of index hits seen through SizedLRU.Get, and the logical size of the last one
+//   pxN, pxFound, pxSize   number of proxy.Contains calls, and the last answer
+//   tmpOpen, tmpName       1 while a temp file created by this invocation is neither committed nor removed
+//   fds         files opened by this invocation and not yet closed or handed over
+
+package disk
+
+//@ ghost hitN Int
+//@ ghost hitSize Int
+//@ ghost pxN Int
+//@ ghost pxFound Bool
+//@ ghost pxSize Int
+
+//@ pred mismatch(a, b) = a > 0 - 1 && b > 0 - 1 && a != b
+//@ pred isEmptyCas(kind, hash, size) = kind == 1 && size <= 0 && hash == "e3b0c44298fc1c149afbf4c8996fb92427ae41e4649b934ca495991b7852b855"
+//@ pred wfCache(c) = c != nil && c.diskWaitSem != nil
+
+//@ func isSizeMismatch(requestedSize int64, foundSize int64) bool
+//@   serves C02 C10 C12 C18
+//@   ensures[C10] exact: result <==> mismatch(requestedSize, foundSize)
+
+//@ func (c *diskCache) Stats() (totalSize int64, reservedSize int64, numItems int, uncompressedSize int64)
+//@   serves C03 C07
+//@   requires c != nil && !locked
+//@   modifies lruState(c.lru)
+//@   ensures[C07] unlocked: !locked
+//@   ensures[C03] exact: totalSize == c.lru.currentSize && reservedSize == c.lru.reservedSize && uncompressedSize == c.lru.uncompressedSize && numItems == len(c.lru.cache)
+//@   ensures[C03] bounded: totalSize <= c.lru.maxSize && reservedSize >= 0 && totalSize == reservedSize + sum4k(c.lru.ll.seq, #lruItem.sizeOnDisk)
+
+//@ func (c *diskCache) Contains(ctx context.Context, kind cache.EntryKind, hash string, size int64) (bool, int64)
+//@   serves C03 C05 C07 C10 C12 C18
+//@   requires wfCache(c) && !locked
+//@   modifies lruState(c.lru), hitN, hitSize, pxN, pxFound, pxSize
+//@   ensures[C07] unlocked: !locked
+//@   ensures[C02,C10] empty: (len(hash) == 64 && isEmptyCas(kind, hash, size)) ==> (result0 && result1 == 0)
+//@   ensures[C10] badhash: len(hash) != 64 ==> !result0
+//@   ensures[C05,C10] localhit: (len(hash) == 64 && !isEmptyCas(kind, hash, size) && hitN > old(hitN) && !mismatch(size, hitSize)) ==> (result0 && result1 == hitSize)
+//@   ensures[C10,C12,C18] sound: (result0 && !(len(hash) == 64 && isEmptyCas(kind, hash, size))) ==>
+//@       ((hitN > old(hitN) && !mismatch(size, hitSize) && result1 == hitSize) ||
+//@        (pxN > old(pxN) && pxFound && pxSize <= c.maxProxyBlobSize && size <= c.maxProxyBlobSize && !mismatch(size, pxSize) && result1 == pxSize))
+//@   ensures[C10] miss: !result0 ==> result1 == 0 - 1
+//@   ensures[C05] looked: (len(hash) == 64 && !isEmptyCas(kind, hash, size)) ==> hitN >= old(hitN)
+//@   call Contains#* asserts[C18] proxylimit: c.proxy != nil && size <= c.maxProxyBlobSize
